@@ -107,6 +107,26 @@ def check(R, F):
                     ok = ok and const_int(t_['args'][1]) == 1
                 else:
                     ok = ok and any(n_.endswith(W + 'add_rrset') for n_ in slice_of(c, t_['args'][1]).call_names())
+            elif len(lv) == 1 and lv[0][0] == 'call' and callee_name(lv[0][2]) == 'std::option::Option::<T>::and_then' and lv[0][3] == [('down', 'Some'), ('f', 0)]:
+                # `amount.and_then(|n| count.checked_add(n))`: the same addition, one closure further in
+                t_ = lv[0][2]
+                recv, cl = t_['args'][0], t_['args'][1]
+                built = [lf for lf in (origins.trace(c, cl['pl']['l'], []) if is_place(cl) else []) if lf[0] == 'rv' and lf[3].get('k') == 'agg' and lf[3].get('ak') == 'closure']
+                inner = F.fns.get(built[0][3]['def']) if len(built) == 1 else None
+                ok = False
+                if inner is not None:
+                    ilv = origins.trace(inner, 0, [('down', 'Some'), ('f', 0)])
+                    if len(ilv) == 1 and ilv[0][0] == 'call' and callee_name(ilv[0][2]).endswith('>::checked_add') and ilv[0][3] == [('down', 'Some'), ('f', 0)]:
+                        ia = [paths.show_operand(inner, a) for a in ilv[0][2]['args']]
+                        caps = [paths.show_operand(c, o_) for o_ in built[0][3]['ops']]
+                        m_ = re.match(r'^arg1\.(\d+)$', ia[0])
+                        ok = m_ is not None and int(m_.group(1)) < len(caps) and caps[int(m_.group(1))].endswith('.' + field) and ia[1] == 'arg2'
+                        # the amount: the receiver's payload, a lossless conversion of 1 / of what add_rrset counted
+                        rtxt = paths.show_operand(c, recv)
+                        if kind == 1:
+                            ok = ok and re.search(r'try_from\(1_usize\)|^Option::Some\{1_u16\}$', rtxt) is not None
+                        else:
+                            ok = ok and 'try_from(' in rtxt and any(n_.endswith(W + 'add_rrset') for n_ in slice_of(c, recv).call_names())
             ws = [(b0, st0)]
         R.require(ok, 'counts', W + name + '|increment', c.where(), '%s += %s (checked)' % (field, kind), '%s updates %s with %s' % (name, field, paths.show_operand(c, ws[0][1]['rv']['op']) if ws else None))
     ar = F.fn(W + 'add_rrset')
